@@ -154,9 +154,9 @@ def parseProg (ts : List String) : Option Spec.AProg :=
       | ["i", m, par] => { P with inherits := P.inherits ++ [{ mods := parseMods m, parent := par }] }
       | ["p", m, f] =>
         if P.fns.any (·.name == f) then P
-        else { P with fns := P.fns ++ [{ name := f, mods := parseMods m, isDef := false, calls := [] }] }
+        else { P with fns := P.fns ++ [{ name := f, mods := parseMods m, isDef := false, calls := [], nargs := Spec.arityOf f }] }
       | ["d", m, f, cs] =>
-        { P with fns := P.fns.filter (·.name != f) ++ [{ name := f, mods := parseMods m, isDef := true, calls := parseACalls cs }] }
+        { P with fns := P.fns.filter (·.name != f) ++ [{ name := f, mods := parseMods m, isDef := true, calls := parseACalls cs, nargs := Spec.arityOf f }] }
       | ["v", _] => { P with hasW := true }
       | _ => P) P)
   | _ => none
@@ -164,7 +164,7 @@ def parseProg (ts : List String) : Option Spec.AProg :=
 inductive Cmd where
   | ld (oid prog : String)
   | dump
-  | call (o : Origin) (oid fn : String)
+  | call (o : Origin) (oid fn : String) (args : List Int := [])
   | callT (isArray : Bool) (ts : List Target) (fn : String)
   | cold
   | evict (oid fn : String)
@@ -204,6 +204,10 @@ def parseCase (lines : List String) : Parsed :=
       match parseOrigin o with
       | some o => { p with cmds := .call o oid fn :: p.cmds }
       | none => { p with bad := line :: p.bad }
+    | ["call", o, oid, fn, args] =>
+      match parseOrigin o, (args.splitOn ",").mapM String.toInt? with
+      | some o, some as => { p with cmds := .call o oid fn as :: p.cmds }
+      | _, _ => { p with bad := line :: p.bad }
     | ["cold"] => { p with cmds := .cold :: p.cmds }
     | ["savebin"] => { p with savebin := true }
     | "reload" :: _ => { p with cmds := .reload :: p.cmds }
@@ -313,11 +317,11 @@ def runModel (body : List String) : List String :=
         -- is saved yet; after it every program file loaded so far (one object per file) comes from its binary
         let nbin := if p.savebin && env.epoch > 0 then s.objs.length else 0
         (env, { s with out := Ev.line s!"binloads {nbin}" :: ((lines.map Ev.line).reverse ++ s.out) })
-      | .call o oid fn =>
+      | .call o oid fn args =>
         (env,
          if o == .hb then doHeartBeat w s oid fn else
          match d.key fn with
-         | some k => doCall w s o oid fn k
+         | some k => doCall w s o oid fn k args
          | none => { s with out := Ev.line s!"bad-name {fn}" :: s.out })
       | .callT isArray ts fn =>
         (env,
@@ -355,6 +359,7 @@ def parseEv (line : String) : Option Spec.Ev :=
     match tag.splitOn ":", old.toInt? with
     | [f, n], some v => some (.run f n v)
     | _, _ => none
+  | "args" :: vs => (vs.mapM String.toInt?).map .args
   | "err" :: _ => some .err
   | ["ret", v] => some (.ret v)
   | "vars" :: oid :: vs => (vs.mapM String.toInt?).map (.vars oid)
@@ -376,6 +381,7 @@ def compareEvs (exp obs : List Spec.Ev) : List String :=
           | .run .., .ret "!no" => "call-lost"        -- an allowed call did not run
           | .run .., .ret "swept" => "call-lost"
           | .vars .., .vars .. => "variables"
+          | .args .., .args .. => "arguments"         -- the callee found other values in its parameters
           | _, _ => "dispatch"
         [s!"{kind} at={i} expected=({e.show}) got=({o.show})"]
   go 0 exp obs
@@ -447,7 +453,7 @@ def runJudge (body : List String) : List String :=
       | .ld oid pn =>
         let pi := g.indexOf pn
         { Spec.specLoad g (g.length + 1) st pi with labels := (oid, pi) :: st.labels }
-      | .call o oid fn => Spec.specCall g st o.str oid fn
+      | .call o oid fn args => Spec.specCall g st o.str oid fn args
       | .callT isArray ts fn => Spec.specCallTargets g st isArray (ts.map toST) fn
       | .reload => { st with objs := [], labels := [] }     -- every object is gone; variables start from 0 again
       | _ => st) {}
